@@ -8,7 +8,7 @@ into methods does not change the verdict.
 import ast
 from typing import Any, Dict, List, Optional, Sequence, Set, Tuple
 
-from .core import AnalysisError, Loc, Report, norm
+from .core import IdiomNotRecognised, AnalysisError, Loc, Report, norm
 from .flow import Ctx, FlowWalker, State
 from .handlers import FnRef, HandlerFacts, concrete_handlers, implementations
 from .inifront import to_snake_case
@@ -57,7 +57,7 @@ class RunLoopClient:
                 if isinstance(n, ast.Assign) and self_attr(n.targets[0]) and isinstance(n.value, ast.Call) \
                         and n.value.args and isinstance(n.value.args[0], ast.Constant) and n.value.args[0].value == prefix:
                     return self_attr(n.targets[0])
-        raise AnalysisError(f"Mediator.__init__: dictionary of '{prefix}*' methods not found")
+        raise IdiomNotRecognised(f"Mediator.__init__: dictionary of '{prefix}*' methods not found")
 
     def events(self, node: ast.AST, ctx: Ctx) -> List[Any]:
         out: List[Any] = []
